@@ -118,9 +118,12 @@ class CoopLock(object):
 
 
 class Sched(object):
-    def __init__(self, rule):
+    def __init__(self, rule, rules=None):
+        """`rules`: every cached object to instrument (nested compositions).  Each DISTINCT original lock object is
+        replaced by one instrumented lock, so objects that share a lock before keep sharing one after."""
         from dateutil import rrule as R
         self.rule = rule
+        self.rules = list(rules) if rules is not None else [rule]
         self.line_codes = {}
         for name, base in MODEL_BASE.items():
             code = getattr(R.rrulebase, name).__code__
@@ -130,17 +133,33 @@ class Sched(object):
             code = getattr(R.rrulebase, name).__code__
             lines = sorted(set(l for _, l in dis.findlinestarts(code) if l is not None and l > code.co_firstlineno))
             self.entry_codes[code] = lines[0]
+        # a subclass may override a query method (e.g. rrule.__contains__): its first line is an entry point as well
+        for cls in (R.rrule, R.rruleset):
+            for name in ENTRY_METHODS:
+                f = cls.__dict__.get(name)
+                if f is not None and hasattr(f, "__code__"):
+                    code = f.__code__
+                    lines = sorted(set(l for _, l in dis.findlinestarts(code) if l is not None and l > code.co_firstlineno))
+                    self.entry_codes.setdefault(code, lines[0])
         self.go, self.back, self.state, self.threads, self.results = [], [], [], [], []
         self.idx = {}
         self.killed = False
-        self.lock = CoopLock(self)
-        rule._cache_lock = self.lock
+        self.locks = {}            # id(original lock object) -> CoopLock
+        for r in self.rules:
+            orig = r._cache_lock
+            if id(orig) not in self.locks:
+                self.locks[id(orig)] = (CoopLock(self), orig)
+            r._cache_lock = self.locks[id(orig)][0]
+        self.lock = rule._cache_lock
+        self.ruleset = set(id(r) for r in self.rules)
 
     def me(self):
         return self.idx[threading.get_ident()]
 
     # ---- worker side
     def pause(self, k, st):
+        if self.killed:                 # unwinding after kill(): later line events must not park the thread again
+            raise Killed()
         self.state[k] = st
         self.back[k].release()
         self.go[k].acquire()
@@ -150,10 +169,10 @@ class Sched(object):
     def _global(self, frame, event, arg):
         code = frame.f_code
         if code in self.line_codes:
-            if frame.f_locals.get("self") is self.rule:
+            if id(frame.f_locals.get("self")) in self.ruleset:
                 return self._line
         elif code in self.entry_codes:
-            if frame.f_locals.get("self") is self.rule:
+            if id(frame.f_locals.get("self")) in self.ruleset:
                 return self._entry
         return None
 
@@ -255,6 +274,29 @@ def run_threads(rule, queries, segments):
     fin = final_state(rule, st, res, owner)
     s.kill()
     return ",".join(trace) if trace else "-", fin, res, st
+
+
+def obj_state(rule):
+    return "%s,%d,%s,%s" % (rrlib.ilist(rrlib.ints(rule._cache)), int(bool(rule._cache_complete)),
+                            "-" if rule._len is None else str(rule._len), "L" if rule._cache_lock.locked() else "-")
+
+
+def run_nested(objs, jobs, segments):
+    """objs: the cached objects (members first, then sets); jobs: [(object index, query)]; one runner thread per job.
+    Returns (trace, object states, statuses, results, number of distinct lock objects)."""
+    s = Sched(objs[0], rules=objs)
+    for oi, q in jobs:
+        s.add((lambda o, q: lambda: rrlib.impl_query(o, q))(objs[oi], q))
+    trace = []
+    for k, n in segments:
+        s.run_seg(k, n, trace)
+    s.finish_all(trace)
+    st = ["done" if x == "done" else "stuck" for x in s.statuses()]
+    res = [r if r is not None else "-" for r in s.results]
+    states = "|".join(obj_state(o) for o in objs)
+    nlocks = len(s.locks)
+    s.kill()
+    return ",".join(trace) if trace else "-", states, st, res, nlocks
 
 
 def seg_wire(segments):
